@@ -76,7 +76,7 @@ Section Walk.
 
   Definition w_feature (a : addr) : list wtok :=
     [m_open; w_kind KFeature] ++ v_attr v a k_id ++ v_attr v a s_link_type
-    ++ v_link_req v a s_data ++ w_times a ++ [m_close].
+    ++ v_link_req v a s_data ++ v_attr v a s_target_type ++ w_times a ++ [m_close].
   Definition w_group (a : addr) : list wtok :=
     w_header KGroup a ++ v_link v a s_metadata ++ w_linklist a s_data_arrays ++ w_linklist a s_tags
     ++ w_linklist a s_multi_tags ++ w_linklist a s_sources ++ w_linklist a s_data_frames ++ [m_close].
@@ -163,12 +163,15 @@ Definition w_result (hsl : list handle) (s : store) (r : ores) : list wtok :=
   end.
 
 (* the trace of a history: after every op, (digest of the result, digest of the walk) *)
+(* the clock of the histories is NOT monotone (the property quantifies over arbitrary clock values): op number n runs
+   at second [clock_of n]; the harness patches the library's clock with the same function *)
+Definition clock_of (n : Z) : Z := (900 + (n * 37) mod 211)%Z.
 Fixpoint trace_from (with_times : bool) (ops : list op) (now : Z) (s : st) (m : idmap)
   : list (Z * Z) :=
   match ops with
   | [] => []
   | o :: rest =>
-      let '(s1, r) := exec o now s in
+      let '(s1, r) := exec o (clock_of now) s in
       let '(m1, hr) := hash_stream m (w_result (hs s1) (sto s1) r) in
       let '(m2, hw) := hash_stream m1 (walk with_times (sto s1)) in
       (hr, hw) :: trace_from with_times rest (now + 1)%Z s1 m2
